@@ -353,6 +353,16 @@ func (c *Ctx) bin(op Op, a, b *Term) *Term {
 			if b.Val == 1 {
 				return a
 			}
+			if b.Val == mask(w) {
+				return c.Neg(a)
+			}
+		}
+		// distribute over an ite tree with constant leaves (table lookups)
+		if constLeaves(b, 16) && !constLeaves(a, 16) {
+			return c.mapLeaves(b, func(k *Term) *Term { return c.bin(OpMul, a, k) })
+		}
+		if constLeaves(a, 16) && !b.IsConst() {
+			return c.mapLeaves(a, func(k *Term) *Term { return c.bin(OpMul, b, k) })
 		}
 		if !b.IsConst() && a.ID > b.ID {
 			a, b = b, a
@@ -422,6 +432,33 @@ func (c *Ctx) bin(op Op, a, b *Term) *Term {
 		}
 	}
 	return c.mk(op, w, 0, "", a, b)
+}
+
+// constLeaves reports whether t is an ite tree (at most n nodes) whose leaves are all constants.
+func constLeaves(t *Term, n int) bool {
+	cnt := 0
+	var rec func(t *Term) bool
+	rec = func(t *Term) bool {
+		cnt++
+		if cnt > n*2 {
+			return false
+		}
+		if t.Op == OpConst {
+			return true
+		}
+		if t.Op == OpIte {
+			return rec(t.Args[1]) && rec(t.Args[2])
+		}
+		return false
+	}
+	return t.Op == OpIte && rec(t)
+}
+
+func (c *Ctx) mapLeaves(t *Term, f func(*Term) *Term) *Term {
+	if t.Op == OpIte {
+		return c.Ite(t.Args[0], c.mapLeaves(t.Args[1], f), c.mapLeaves(t.Args[2], f))
+	}
+	return f(t)
 }
 
 func foldBin(op Op, w int, x, y uint64) (uint64, bool) {
@@ -891,3 +928,38 @@ func (t *Term) str(sb *strings.Builder, d int) {
 }
 
 var _ = bits.Len
+
+// Rebuild constructs a term like t with new arguments (re-running the simplifier).
+func (c *Ctx) Rebuild(t *Term, args []*Term) *Term {
+	switch t.Op {
+	case OpNot:
+		return c.Not(args[0])
+	case OpAnd:
+		return c.And(args[0], args[1])
+	case OpOr:
+		return c.Or(args[0], args[1])
+	case OpEq:
+		return c.Eq(args[0], args[1])
+	case OpIte:
+		return c.Ite(args[0], args[1], args[2])
+	case OpBNot:
+		return c.BNot(args[0])
+	case OpNeg:
+		return c.Neg(args[0])
+	case OpULT, OpULE, OpSLT, OpSLE:
+		return c.cmp(t.Op, args[0], args[1])
+	case OpExtract:
+		return c.Extract(args[0], int(t.Val>>8), int(t.Val&0xff))
+	case OpZExt:
+		return c.ZExt(args[0], t.W)
+	case OpSExt:
+		return c.SExt(args[0], t.W)
+	case OpConcat:
+		return c.Concat(args[0], args[1])
+	case OpApp:
+		return c.App(t.Name, t.W, args...)
+	case OpAdd, OpSub, OpMul, OpUDiv, OpSDiv, OpURem, OpSRem, OpBAnd, OpBOr, OpBXor, OpShl, OpLShr, OpAShr:
+		return c.bin(t.Op, args[0], args[1])
+	}
+	return t
+}
